@@ -1,10 +1,10 @@
 #!/bin/bash
 # development aid: run every registered check once (tier $1, seed $2) and print one line per check
 tier=${1:-quick}; seed=${2:-1}
-cd /verif
+cd "$(dirname "$0")/.."
 for p in $(python3 -c "import json; print(' '.join(c['property_id'] for c in json.load(open('MANIFEST.json'))['checks']))"); do
   s=$(date +%s)
-  out=$(VERIF_SEED=$seed bin/check $p --tier $tier 2>&1); rc=$?
+  out=$(VERIF_SEED=$seed VERIF_OUT=${VERIF_OUT:-$PWD} bin/check $p --tier $tier 2>&1); rc=$?
   e=$(date +%s)
   echo "$p rc=$rc $((e-s))s $(echo "$out" | grep -E 'VIOLATION|INCONCLUSIVE|HARNESS' | head -3 | cut -c1-160 | tr '\n' ' ')"
 done
